@@ -40,6 +40,7 @@ type FuncSpec struct {
 	ModSet  bool      // a modifies clause was given
 	ModAll  bool      // "modifies everything"
 	Pure    bool
+	Derive  string // "wire": ensures clauses are derived mechanically (derive.go)
 	Trusted bool // body is not verified; contract is an assumption
 	PanicIf []*Clause
 	Loops   map[int]*LoopSpec
@@ -86,6 +87,7 @@ type Spec struct {
 	ChanInvs map[string]*Clause // "channel.inMsgChan" -> invariant over v
 	Writers  map[string][]string
 	Callers  map[string][]string
+	MapInvs  map[string]*Clause // global map variable -> invariant over its values (v), assumed at lookups
 	Assumes  []string // every assumption-like clause, for the pre-report scan
 	Order    []string
 }
@@ -93,7 +95,7 @@ type Spec struct {
 func newSpec() *Spec {
 	return &Spec{Funcs: map[string]*FuncSpec{}, Externs: map[string]*FuncSpec{}, Methods: map[string]*FuncSpec{},
 		Roles: map[string]*FuncSpec{}, SpecFns: map[string]*SpecFn{}, Ghosts: map[string][]*GhostField{},
-		ChanInvs: map[string]*Clause{}, Writers: map[string][]string{}, Callers: map[string][]string{}}
+		ChanInvs: map[string]*Clause{}, MapInvs: map[string]*Clause{}, Writers: map[string][]string{}, Callers: map[string][]string{}}
 }
 
 var propTagRe = regexp.MustCompile(`^\[([A-Za-z0-9, ]+)\]\s*`)
@@ -330,7 +332,19 @@ func (s *Spec) load(path string, prefix string) error {
 			}
 			head, body := strings.TrimSpace(r[:eq]), strings.TrimSpace(r[eq+3:])
 			op := strings.Index(head, "(")
-			cp := strings.LastIndex(head, ")")
+			cp := -1
+			depth := 0
+			for i := op; i >= 0 && i < len(head); i++ {
+				if head[i] == '(' {
+					depth++
+				} else if head[i] == ')' {
+					depth--
+					if depth == 0 {
+						cp = i
+						break
+					}
+				}
+			}
 			if op < 0 || cp < op {
 				return fmt.Errorf("%s:%d: bad spec fn header", path, ln)
 			}
@@ -405,6 +419,18 @@ func (s *Spec) load(path string, prefix string) error {
 				return err
 			}
 			s.ChanInvs[curOwner+"."+strings.TrimSpace(rest[:i])] = c
+			return nil
+		case "mapinv":
+			i := strings.Index(rest, ":")
+			if i < 0 {
+				return fmt.Errorf("%s:%d: bad mapinv", path, ln)
+			}
+			c, err := s.mkClause(strings.TrimSpace(rest[i+1:]), path, ln)
+			if err != nil {
+				return err
+			}
+			s.MapInvs[strings.TrimSpace(rest[:i])] = c
+			s.Assumes = append(s.Assumes, "mapinv "+rest)
 			return nil
 		case "writers", "callers":
 			i := strings.Index(rest, ":")
@@ -481,6 +507,8 @@ func (s *Spec) load(path string, prefix string) error {
 			s.Assumes = append(s.Assumes, fmt.Sprintf("%s %s: trusted contract (%s)", cur.Kind, cur.Name, rest))
 		case "note":
 			cur.Notes = append(cur.Notes, rest)
+		case "derive":
+			cur.Derive = rest
 		case "panics":
 			if rest == "never" {
 				break
